@@ -79,6 +79,21 @@ func init() {
 			rpcPagerLimit(c, 0)
 			return
 		}
+		if only := c.Args["only"]; only == "stateless" || only == "follower" || only == "xg" || only == "pagers" {
+			for i := 0; i < c.N; i++ {
+				switch only {
+				case "stateless":
+					rpcStatelessHistory(c, i)
+				case "follower":
+					rpcStatelessFollower(c, i)
+				case "pagers":
+					rpcPagerHistory(c, i)
+				default:
+					rpcXgHistory(c, i)
+				}
+			}
+			return
+		}
 		for i := 0; i < c.N; i++ {
 			rpcHistory(c, i)
 		}
@@ -426,6 +441,13 @@ func rpcHistory(c *Ctx, id int) {
 		}
 	}
 	c.Hit("history")
+	// one long-lived set of API objects across growth and reorganisations (s_rpc_stateless.go); on a follower every second history
+	rpcStatelessHistory(c, id)
+	if id%2 == 1 {
+		rpcStatelessFollower(c, id)
+	}
+	// all getters of an API answer from one state, the frontier context, at every intermediate state (s_rpc_xgetters.go)
+	rpcXgHistory(c, id)
 	if id%3 == 0 {
 		rpcManyUnreceived(c, id)
 	}
